@@ -768,6 +768,40 @@ def _edited_reference(rids):
     return out
 
 
+def _preempt_chunk(rids, max_points):
+    """for every recipe of the chunk: the same recipe on another (edited) pool is run to completion at the library
+    lines of the call (all of them up to max_points, else an even sub-lattice of max_points of them); both results must be
+    the solo results.  -> list of (rid, points explored, points in all, bad description or None)"""
+    from mc import reentry
+    recs = {r[0]: r for r in recipes()}
+    out = []
+    for rid in rids:
+        fn = recs[rid][2]
+
+        def A():
+            return _call(fn, make_pool(), scribble=False)
+
+        def B():
+            P = make_pool()
+            _edit_pool(P)
+            return _call(fn, P, scribble=False)
+        solo_a, solo_b = A(), B()
+        if A() != solo_a or B() != solo_b:
+            out.append((rid, 0, 0, "not repeatable without interleaving (judged by the other clauses)"))
+            continue
+        n, _ = reentry.count_points(A)
+        stride = max(1, -(-n // max_points))
+        bad, k_done = [], 0
+        for k, where, ra, rb in reentry.explore(A, B, stride=stride):
+            k_done += 1
+            if ra != solo_a:
+                bad.append("A@%s" % where)
+            if rb != solo_b:
+                bad.append("B@%s" % where)
+        out.append((rid, k_done, n, ", ".join(sorted(set(bad))[:6]) if bad else None))
+    return out
+
+
 def _chains(a_ids, alphabet_ids, pristine):
     """for every a of a_ids (in order, in this one process): a, then every recipe b of the alphabet"""
     out = []
@@ -811,8 +845,8 @@ def setup(tier):
     assert len(set(ids)) == len(ids), "duplicate recipe ids"
     from mc.isolate import isolated_map
     _PRISTINE = dict(zip(ids, isolated_map(_single, [(rid,) for rid in ids], jobs=16)))
-    groups = [ids[k::16] for k in range(16)]
-    for part in isolated_map(_edited_reference, [(g,) for g in groups], jobs=16):
+    # (one pristine child per recipe: a recipe that leaves process-wide state behind must not reach the next one)
+    for part in isolated_map(_edited_reference, [([rid],) for rid in ids], jobs=16):
         for rid, (d, e) in part.items():
             _PRISTINE[rid]["d4_ref"], _PRISTINE[rid]["e4_ref"] = d, e
 
@@ -824,6 +858,8 @@ def cases(tier):
         yield Case("single:" + rid, {"kind": "single", "rid": rid}, True)
     for i in range(N_CHAINS):
         yield Case("chain:%d" % i, {"kind": "chain", "i": i}, True)
+    for i in range(N_CHAINS):
+        yield Case("preempt:%d" % i, {"kind": "preempt", "i": i, "max_points": 60 if tier == "quick" else 400}, True)
     if tier == "thorough":
         for a in SUB_ALPHABET:
             for b in SUB_ALPHABET:
@@ -902,6 +938,24 @@ def evaluate(p):
         for a, rid, d, e in bad:
             o.check("result_independent_of_history", False, sub="after=%s:then=%s" % (a, rid),
                     detail={"error": e, "earlier_in_this_process": mine[:mine.index(a)]})
+        return o
+    if kind == "preempt":
+        ids = [r[0] for r in recipes()]
+        mine = [rid for k, rid in enumerate(ids) if k % N_CHAINS == p["i"]]
+        res = isolated(_preempt_chunk, mine, p["max_points"])
+        tot = 0
+        for rid, done, n, bad in res:
+            tot += done
+            if done == 0 and bad:
+                o.stat("preempt_recipes_not_repeatable_skipped", 1)
+                continue
+            o.check("result_independent_of_a_call_interleaved_at_any_line", bad is None, sub=rid, n=max(done, 1),
+                    detail=None if bad is None else "%s (explored %d of %d preemption points)" % (bad, done, n))
+            if done < n:
+                o.stat("preempt_recipes_on_a_sub_lattice_of_points", 1)
+        o.stat("schedules_explored", tot)
+        o.stat("transitions", tot)
+        o.stat("lib_calls", 2 * tot)
         return o
     if kind in ("after", "after2"):
         ids = [r[0] for r in recipes()]
